@@ -11,7 +11,7 @@
                        exception: `scope.maps[1][CHILD_ERRORS].append(scope)`,
                        `scope.maps[0][CUR_ERROR] = e`, and the NO_PYFRAME walk up the UP chain
     `chain_child`      `nxt.maps[0][NO_PYFRAME] = True`, `del nxt.maps[0][CHILD_ERRORS][:]`
-    `_unpack_stack`    (only_errors=True)
+    `_unpack_stack`    (only_errors=True: the linear descent stops at a last child without CUR_ERROR)
     `format_target_spec_trace`, `_format_trace_value`
   Strings are lists of characters (Python code points).
 -/
@@ -104,7 +104,10 @@ def unpackLoop (fs : Array Frame) : Nat → Nat → List Row → List Row
       | some child =>
         let branches := if f.childErrors == [child] then [] else f.childErrors
         let acc' := acc ++ [⟨cur, f.curError, branches⟩]
-        if branches.contains child then acc' else unpackLoop fs fuel child acc'
+        if branches.contains child then acc'
+        -- `if only_errors and CUR_ERROR not in child.maps[0]: break`: the last child returned normally
+        else if (fs[child]?.bind (·.curError)).isNone then acc'
+        else unpackLoop fs fuel child acc'
 
 /-- "push errors down": an error shared with the next row is shown only there -/
 def pushDown : List Row → List Row
